@@ -69,7 +69,7 @@ def index_to_loc(body: str, position: int) -> Tuple[int, int]:
             cols += 1
     return (lines + 1, cols + 1)
 -/
-def index_to_loc.loop1 (body : List Nat) (position : Int) : (List (Int × Nat)) → Int → Int → Py.Flow (Int × Int) (Int × Int)
+def index_to_loc.loop1 (body : List Nat) (position : Int) : (List (Int × Nat)) → Int → Int → Py.Flow String (Int × Int) (Int × Int)
   | [], lines, cols => .fall (lines, cols)
   | (offset, char) :: rest__, lines, cols =>
     (if (offset == position) then
@@ -155,7 +155,7 @@ def loc_to_index(body: str, loc: Tuple[int, int]) -> int:
             lines += 1
     raise IndexError("%s:%s" % (lineo, col))
 -/
-def loc_to_index.loop1 (body : List Nat) (lineo : Int) (col : Int) : (List (Int × Nat)) → Int → Py.Flow Int Int
+def loc_to_index.loop1 (body : List Nat) (lineo : Int) (col : Int) : (List (Int × Nat)) → Int → Py.Flow String Int Int
   | [], lines => .fall lines
   | (index, char) :: rest__, lines =>
     (if (lines == (lineo - (1 : Int))) then
